@@ -96,7 +96,8 @@ class OsuMapMeta(
         for e, line in enumerate(lines):
             if line == "":
                 continue
-            k, *v = line.split(":")
+            # Only the first colon separates key and value: values may hold colons
+            k, *v = line.split(":", 1)
             if v:
                 v = v[0]
             if k == "AudioFilename":
